@@ -1,4 +1,5 @@
 import FlVerif.Op.Cascade
+import FlVerif.Gen.SetterGen
 import Mathlib.Tactic.Linarith
 
 /-! # C12 — Output values follow the lock-previous / default / lock-range cascade
@@ -201,6 +202,15 @@ theorem locked_in_range (c : CascadeCfg α) (h : c.lockRange = true) (lo hi : α
   simp only [isnan_fin, Bool.and_false, Bool.false_eq_true, if_false, h, if_true, hlo, hhi, clip,
     npmax_fin, npmin_fin]
   exact ⟨_, rfl, le_min (le_max_right _ _) hle, min_le_right _ _⟩
+
+/-! ## Tie A: the clipping setter of the model is the traced `Variable.value` setter -/
+
+/-- the `Variable.value` setter as traced from the code (`np.clip(value, minimum, maximum) if lock_range else value`)
+    is the setter of the model, for every value, range and flag -/
+theorem gen_value_setter (c : CascadeCfg α) (v : X α) :
+    setter c v = if c.lockRange then Gen.Setter.valueLocked c.lo c.hi v else Gen.Setter.valueUnlocked c.lo c.hi v := by
+  unfold setter Gen.Setter.valueLocked Gen.Setter.valueUnlocked X.clip
+  cases c.lockRange <;> rfl
 
 /-! ## non-vacuity -/
 example : (commit (α := ℚ) { lockPrev := true, lockRange := true, dflt := fin 5, lo := fin 0, hi := fin 1 }
